@@ -19,6 +19,8 @@ source; a lost anchor raises Lost, which checks/c19.py turns into core.TieBroken
   fieldCheck      Object::GetFieldByName (lib/base/object.cpp) throws for FANoUserView under `sandboxed`
                   before `return GetField(fid)`
   frameInherits   ScriptFrame::InitializeFrame copies `Sandboxed` from the enclosing frame
+  appDtorClearsSingleton   Application::~Application (lib/base/application.cpp) resets m_Instance outside any condition
+                  (F-C19c: then the constructor call `IcingaApplication()`, made before the whitelist test, has an effect)
   scriptFunctionsUnsafe   VMOps::NewFunction builds `new Function(name, wrapper, argNames)` (no `true` flag)
   natives         every native registration: REGISTER_[SAFE_]FUNCTION[_NONCONST](ns, name, ...) (also via
                   REGISTER_STATSFUNCTION) and `new Function("Ns#name", callback, {args}[, safe[, deprecated]])`
@@ -1255,6 +1257,19 @@ def extract(repo, build=None, cache=None, use_ast=True):
         raise Lost("reference.cpp: cannot read the sandboxed argument of GetFieldByName in Reference::Get")
     t["refGetSandboxed"] = resolve_bool(a[1], gb[0][1] + "\n" + rsrc) is True
 
+    # --- F-C19c: does ANY Application destructor clear the process-wide singleton?  (lib/base/application.cpp:105-108:
+    # `Application::~Application() { m_Instance = nullptr; }`.)  True iff the destructor's body contains an assignment /
+    # reset of m_Instance that is not under a condition; a conditional clear (`if (m_Instance == this) …`) or none is false.
+    asrc = read(repo, "lib/base/application.cpp")
+    m = re.search(r"\bApplication::~Application\s*\(\s*\)\s*\{", asrc)
+    if not m:
+        raise Lost("application.cpp: Application::~Application() not found")
+    ab0 = m.end() - 1
+    abody = asrc[ab0 + 1:match_close(asrc, ab0)]
+    depth0 = re.sub(r"\{[^{}]*\}", "", abody)            # drop braced sub-blocks (one level is all a destructor this small has)
+    depth0 = re.sub(r"\bif\s*\([^;]*;", "", depth0)      # and single-statement ifs
+    t["appDtorClearsSingleton"] = re.search(r"\bm_Instance\s*(=\s*(nullptr|NULL|0)\b|\.reset\s*\(\s*\))", depth0) is not None
+
     # --- call check
     fc = dict(ev)["FunctionCallExpression"]
     call = fc.find("VMOps::FunctionCall")
@@ -1508,6 +1523,8 @@ def render(t):
     o.append("def refGetSandboxed : Bool := " + lean_bool(t["refGetSandboxed"]))
     o.append("/-- VMOps::FindVarImport reads an imported name through GetField(…, frame.Sandboxed, …) -/")
     o.append("def importReadSandboxed : Bool := " + lean_bool(t["importReadSandboxed"]))
+    o.append("/-- Application::~Application() clears Application::m_Instance unconditionally (F-C19c) -/")
+    o.append("def appDtorClearsSingleton : Bool := " + lean_bool(t["appDtorClearsSingleton"]))
     o.append("/-- ScriptFrame::InitializeFrame inherits `Sandboxed` from the enclosing frame -/")
     o.append("def frameInherits : Bool := " + lean_bool(t["frameInherits"]))
     o.append("/-- VMOps::NewFunction creates script functions that are not side-effect free -/")
